@@ -80,3 +80,90 @@ Example ex_any_v : tval :=
             (3, VSet T_I16 []) ].
 Example ex_any_wf : wf ex_any_v = true. Proof. vm_compute. reflexivity. Qed.
 Example ex_any_u8 : read_any true false (VByte (-1)) = GInt T_BYTE 255. Proof. vm_compute. reflexivity. Qed.
+
+(* ================================================================== (G) thrift/binary.go from the Go source *)
+(* gen/Gen_thriftbin.v is regenerated from thrift/binary.go on every build (go2coq abstract-environment mode): the in-place leaf writers
+   BinaryEncoding.Encode* with Go's bounds checks written out (None = panic), and the envelope functions with the Write* / Read*
+   primitives they call as an effect trace resp. oracle inputs. *)
+From DG Require Import Check20g GenThriftbinProofs.
+From DG Require Gen_thriftbin.
+
+(* every leaf writer puts the canonical encoding (ThriftWire.enc_int / encode) over the first bytes of the buffer, keeps the rest,
+   and panics exactly when the fixed part does not fit (strings: as much of the text as fits is copied) *)
+Theorem C19_Encode_from_source :
+  (forall b v, Gen_thriftbin.BinaryEncoding_EncodeBool b v = model_encode 0 b (Z.b2z v) 0 []) /\
+  (forall b v, 0 <= v < 256 -> Gen_thriftbin.BinaryEncoding_EncodeByte b v = model_encode 1 b v 0 []) /\
+  (forall b v, Gen_thriftbin.BinaryEncoding_EncodeInt16 b v = model_encode 2 b v 0 []) /\
+  (forall b v, Gen_thriftbin.BinaryEncoding_EncodeInt32 b v = model_encode 3 b v 0 []) /\
+  (forall b v, Gen_thriftbin.BinaryEncoding_EncodeInt64 b v = model_encode 4 b v 0 []) /\
+  (forall b v, Gen_thriftbin.BinaryEncoding_EncodeDouble b v = model_encode 5 b v 0 []) /\
+  (forall b s, Gen_thriftbin.BinaryEncoding_EncodeString b s = model_encode 6 b 0 0 s) /\
+  (forall b s, Gen_thriftbin.BinaryEncoding_EncodeBinary b s = model_encode 7 b 0 0 s) /\
+  (forall b t id, 0 <= t < 256 -> Gen_thriftbin.BinaryEncoding_EncodeFieldBegin b t id = model_encode 8 b t id []).
+Proof.
+  repeat split; [exact EncodeBool_is_byte | exact EncodeByte_is_enc_int | exact EncodeInt16_is_enc_int | exact EncodeInt32_is_enc_int |
+    exact EncodeInt64_is_enc_int | exact EncodeDouble_is_enc_int | exact EncodeString_is_enc | exact EncodeBinary_is_enc | exact EncodeFieldBegin_is_enc].
+Qed.
+Print Assumptions C19_Encode_from_source.
+
+Theorem C19_Encode_canonical :
+  (forall b v, (4 <= length b)%nat -> Gen_thriftbin.BinaryEncoding_EncodeInt32 b v = Some (enc_int 4 v ++ skipn 4 b)) /\
+  (forall b s, (4 + length s <= length b)%nat -> Gen_thriftbin.BinaryEncoding_EncodeString b s = Some (encode (VString s) ++ skipn (4 + length s) b)).
+Proof. split; [exact EncodeInt32_canonical | exact EncodeString_canonical]. Qed.
+Print Assumptions C19_Encode_canonical.
+
+(* WriteMessageBegin = WriteI32(VERSION_1 | type), WriteString(name), WriteI32(seq); together with WriteFieldBegin(STRUCT, id) these are
+   the bytes of the model's envelope header; a failing primitive stops the sequence and its error is returned *)
+Theorem C19_envelope_header_from_source :
+  forall name ty id seq, 0 <= ty < 256 ->
+  env_header name ty id seq =
+    writes_bytes name (snd (Gen_thriftbin.BinaryProtocol_WriteMessageBegin name ty seq 0 0 0)) ++
+    writes_bytes [] (snd (Gen_thriftbin.BinaryProtocol_WriteFieldBegin [] T_STRUCT id 0 0)).
+Proof. exact env_header_is_begin_calls. Qed.
+Print Assumptions C19_envelope_header_from_source.
+
+Theorem C19_WriteMessageBegin_errors_from_source :
+  forall name ty seq e1 e2 e3,
+  fst (Gen_thriftbin.BinaryProtocol_WriteMessageBegin name ty seq e1 e2 e3) = (if negb (e1 =? 0) then e1 else if negb (e2 =? 0) then e2 else e3) /\
+  Z.of_nat (length (snd (Gen_thriftbin.BinaryProtocol_WriteMessageBegin name ty seq e1 e2 e3))) = (if negb (e1 =? 0) then 1 else if negb (e2 =? 0) then 2 else 3).
+Proof. exact WriteMessageBegin_errors. Qed.
+Print Assumptions C19_WriteMessageBegin_errors_from_source.
+
+(* field / stop / map / list / set headers are the bytes ThriftWire.encode puts there *)
+Theorem C19_container_headers_from_source :
+  (forall name t id, 0 <= t < 256 -> writes_bytes [] (snd (Gen_thriftbin.BinaryProtocol_WriteFieldBegin name t id 0 0)) = t :: enc_int 2 id) /\
+  writes_bytes [] (snd (Gen_thriftbin.BinaryProtocol_WriteFieldStop 0)) = [0] /\
+  (forall k v n, 0 <= k < 256 -> 0 <= v < 256 -> writes_bytes [] (snd (Gen_thriftbin.BinaryProtocol_WriteMapBegin k v n 0 0 0)) = k :: v :: enc_int 4 n) /\
+  (forall t n, 0 <= t < 256 -> writes_bytes [] (snd (Gen_thriftbin.BinaryProtocol_WriteListBegin t n 0 0)) = t :: enc_int 4 n) /\
+  (forall t n, 0 <= t < 256 -> writes_bytes [] (snd (Gen_thriftbin.BinaryProtocol_WriteSetBegin t n 0 0)) = t :: enc_int 4 n).
+Proof. exact WriteBegin_bytes. Qed.
+Print Assumptions C19_container_headers_from_source.
+
+(* ReadMessageBegin accepts exactly the headers the model's [unwrap] accepts (mask check on the first word), takes the message type
+   from its low byte, and reads nothing further from a rejected header *)
+Theorem C19_ReadMessageBegin_from_source :
+  (forall c size name seq, header_ok size = true ->
+     Gen_thriftbin.BinaryProtocol_ReadMessageBegin c size 0 name 0 seq 0 =
+       (name, Z.land size 255, seq, 0, [(Gen_thriftbin.Eff_ReadI32, []); (Gen_thriftbin.Eff_ReadString, [Z.b2z c]); (Gen_thriftbin.Eff_ReadI32, [])])) /\
+  (forall c size name e2 seq e3, header_ok size = false ->
+     let '(_, _, _, err, eff) := Gen_thriftbin.BinaryProtocol_ReadMessageBegin c size 0 name e2 seq e3 in
+     err = Gen_thriftbin.Err_errInvalidVersion /\ eff = [(Gen_thriftbin.Eff_ReadI32, [])]) /\
+  (forall bs vb r1, take 4 bs = Some (vb, r1) -> header_ok (dec_int vb) = false -> unwrap bs = None).
+Proof. split; [exact ReadMessageBegin_accepts|]. split; [exact ReadMessageBegin_rejects | exact unwrap_header_ok]. Qed.
+Print Assumptions C19_ReadMessageBegin_from_source.
+
+(* the container headers validate the element types (thrift.Type.Valid = the model's type_valid) and reject negative sizes *)
+Theorem C19_ReadBegin_from_source :
+  (forall k v n, 0 <= k < 256 -> 0 <= v < 256 ->
+     Gen_thriftbin.BinaryProtocol_ReadMapBegin k 0 v 0 n 0 =
+       if negb (type_valid k) then (0, 0, 0, Gen_thriftbin.Err_errInvalidDataType, [(Gen_thriftbin.Eff_ReadByte, [])])
+       else if negb (type_valid v) then (0, 0, 0, Gen_thriftbin.Err_errInvalidDataType, [(Gen_thriftbin.Eff_ReadByte, []); (Gen_thriftbin.Eff_ReadByte, [])])
+       else if n <? 0 then (k, v, 0, Gen_thriftbin.Err_errInvalidDataSize, [(Gen_thriftbin.Eff_ReadByte, []); (Gen_thriftbin.Eff_ReadByte, []); (Gen_thriftbin.Eff_ReadI32, [])])
+       else (k, v, n, 0, [(Gen_thriftbin.Eff_ReadByte, []); (Gen_thriftbin.Eff_ReadByte, []); (Gen_thriftbin.Eff_ReadI32, [])])) /\
+  (forall t x, 0 <= t < 256 ->
+     Gen_thriftbin.BinaryProtocol_ReadFieldBegin t 0 x 0 =
+       if negb (type_valid t) then ([], 0, 0, Gen_thriftbin.Err_errInvalidDataType, [(Gen_thriftbin.Eff_ReadByte, [])])
+       else if t =? 0 then ([], 0, 0, 0, [(Gen_thriftbin.Eff_ReadByte, [])])
+       else ([], t, wrapu 16 x, 0, [(Gen_thriftbin.Eff_ReadByte, []); (Gen_thriftbin.Eff_ReadI16, [])])).
+Proof. split; [exact ReadMapBegin_spec | intros; apply ReadFieldBegin_spec; assumption]. Qed.
+Print Assumptions C19_ReadBegin_from_source.
